@@ -344,7 +344,8 @@ class CharsetAccept(Accept):
         def _normalize(name: str) -> str:
             try:
                 return codecs.lookup(name).name
-            except LookupError:
+            except (LookupError, ValueError):
+                # ValueError: the name contains a null character
                 return name.lower()
 
         return item == "*" or _normalize(value) == _normalize(item)
